@@ -206,11 +206,36 @@ def correspondence(ctx):
         for delta in (0, 8, -1):
             lines.append("inplace %d %d %s" % (len(content), delta, frames.hx(data))); dinfo.append(("inplace%+d" % delta, content, data, first))
     want = frames.parallel(lambda ch: frames.run_lines(plain, ch)[1], frames.split_chunks(["xxh " + frames.hx(d[1]) for d in dinfo], 16))
-    got = frames.parallel(lambda ch: frames.run_lines(exe, ch)[1], frames.split_chunks(lines, 16))
+    def run_checked(ch):
+        rc, out, err = frames.run_lines(exe, ch, timeout=1800)
+        if rc != 0 or len(out) != len(ch):
+            bad = ch[min(len(out), len(ch) - 1)]
+            ctx.violation("sanitizer build aborted in a decoding / inspection entry point: %s :: %s" % (bad[:100], (err or "")[-600:]), dict(kind="monitor", op=bad[:400000], stderr=(err or "")[-3000:]))
+            out = out + ["crash"] * (len(ch) - len(out))
+        return out
+    # (c2) source read discipline with decompression parameters set: checksummed frames cut 1..6 bytes short (and at random points) decoded with
+    # ZSTD_d_forceIgnoreChecksum / small ZSTD_d_maxBlockSize / ZSTD_d_windowLogMax, single-call and streaming, from exact-size source buffers
+    plines = []
+    for (x, fb) in multi[: (40 if ctx.quick() else 400)]:
+        for cut in sorted(set([1, 2, 3, 4, 5, 6] + [rng.randrange(1, max(2, len(fb))) for _ in range(2)])):
+            if cut >= len(fb):
+                continue
+            dp = rng.choice(["1002=1", "1002=1", "1002=1,1005=1024", "100=10", "1004=1"])
+            plines.append("decdp %s %s %d %s" % (dp, rng.choice("oos"), len(x), frames.hx(fb[:len(fb) - cut])))
+        plines.append("decdp 1002=1 %s %d %s" % (rng.choice("os"), len(x), frames.hx(fb)))
+    pres = frames.parallel(run_checked, frames.split_chunks(plines, 16))
+    for ln, r in zip(plines, pres):
+        ev += 1
+        whole = ln.split()[4] in [frames.hx(fb) for _, fb in multi[:1]]   # (only the uncut line of the first frame is compared below)
+        if r.startswith("ok") and int(r.split()[1]) > int(ln.split()[3]):
+            ctx.violation("decoding with decompression parameters returned more than the capacity: %s" % r, dict(kind="monitor", op=ln[:400000], result=r))
+    got = frames.parallel(run_checked, frames.split_chunks(lines, 16))
     walk = frames.model_lines(["walk " + frames.hx(d[2]) for d in dinfo if d[0] == "insp"])
     wi = 0
     for ln, r, w, d in zip(lines, got, want, dinfo):
         ev += 1
+        if r == "crash":
+            continue
         rep = dict(kind="monitor", op=ln[:200000], result=r)
         if d[0] == "dcap":
             _, x, fb, cp = d
